@@ -15,7 +15,7 @@ package metrics
 //verif:stub-always (*github.com/siglens/siglens/pkg/segment/writer/metrics.MetricsBlock).encodeDatapoint verifC10rEncodeDatapoint
 //verif:stub-always (*github.com/siglens/siglens/pkg/segment/writer/metrics.MetricsBlock).flushBlock verifC10rFlushBlock
 //verif:bound one open metrics block; 1..7 datapoints with free timestamp/value/series id passed to appendToWALBuffer with the in-memory batch size set to 2 and the rotation threshold set to 1 byte (rotate after every batch), 70 bytes (rotate after every second batch) or unreachable (no rotation); the process dies before any one of the file-system operations of those appends (thorough: the write it dies in torn at any byte) or after the last one, nothing is flushed, and RecoverWALData runs on the same directory
-//verif:outside the periodic flush goroutine, several blocks/segments/shards in one directory, more than nine rotations (file-name order), rebuilding and flushing the recovered block (encodeDatapoint/flushBlock are recording stubs), torn writes (VerifC10TruncatedPrefix)
+//verif:outside the periodic flush goroutine, several blocks/segments/shards in one directory, more than nine rotations (file-name order), rebuilding the recovered block and the flush itself (encodeDatapoint/flushBlock are recording stubs; that the flush is requested after the last replayed datapoint is checked), torn writes (VerifC10TruncatedPrefix)
 //verif:assume zstd EncodeAll/DecodeAll are identity stubs; getWALBaseDir returns the harness directory; the file system model applies operations in order
 
 import (
@@ -28,21 +28,25 @@ import (
 )
 
 var verifC10rRecovered []wal.WalDatapoint
+var verifC10rFlushedAt int // datapoints replayed into the block when it was last flushed
 
 func verifC10rEncodeAll(e *zstd.Encoder, src, dst []byte) []byte { return append(dst, src...) }
 func verifC10rDecodeAll(d *zstd.Decoder, input, dst []byte) ([]byte, error) {
 	return append(dst, input...), nil
 }
-func verifC10rBaseDir() string                                     { return "/data/wal-ts/" }
+func verifC10rBaseDir() string                                      { return "/data/wal-ts/" }
 func verifC10rMetricsKey(suffix uint64, mId string) (string, error) { return "/data/ts/k", nil }
 func verifC10rEncodeDatapoint(mb *MetricsBlock, timestamp uint32, dpVal float64, tsid uint64) error {
 	verifC10rRecovered = append(verifC10rRecovered, wal.WalDatapoint{Timestamp: timestamp, DpVal: dpVal, Tsid: tsid})
 	return nil
 }
-func verifC10rFlushBlock(mb *MetricsBlock, basePath string, suffix uint64, bufId uint16) error { return nil }
+func verifC10rFlushBlock(mb *MetricsBlock, basePath string, suffix uint64, bufId uint16) error {
+	verifC10rFlushedAt = len(verifC10rRecovered)
+	return nil
+}
 
 func VerifC10WalRotationKeepsAppendedDatapoints() {
-	verifC10rRecovered = nil
+	verifC10rRecovered, verifC10rFlushedAt = nil, 0
 	sutils.WAL_BLOCK_FLUSH_SIZE = 2
 	sutils.MAX_WAL_FILE_SIZE_BYTES = []uint64{1, 70, 1 << 40}[zz.Choice("rotationThreshold", 3)]
 	mb := initMetricsBlock("0", 1, 0)
@@ -80,6 +84,8 @@ func VerifC10WalRotationKeepsAppendedDatapoints() {
 	RecoverWALData()
 	n := len(verifC10rRecovered)
 	zz.Assert(n >= atLeast && n <= atMost && n%2 == 0, "rotation/replays-exactly-the-appended-batches")
+	// recovery deletes the log files it has read, so everything it replayed must have been handed to the block flush
+	zz.Assert(verifC10rFlushedAt == n, "rotation/every-replayed-datapoint-is-flushed-before-its-log-is-gone")
 	for i := 0; i < n && i < k; i++ {
 		g := verifC10rRecovered[i]
 		zz.Assert(g.Timestamp == in[i].Timestamp && g.Tsid == in[i].Tsid &&
